@@ -120,7 +120,19 @@ def markers(stream, name):
     return out
 
 
+def _errs_at_start(always):
+    """a later member whose `computes` cannot be evaluated in the start round (fix 88efe9c): the auditors started before
+    it still get their end-of-period judgement"""
+    bad = ("neg", g.var("mood")) if always else ("ite", ("bin", "gt", g.var("t"), g.num(500)), g.num(1), ("neg", g.var("mood")))
+    return {"signals": [("s", "scalar")], "actors": ["a"], "members": [
+        {"name": "m0", "cond": g.TRUE, "assigns": [], "expect": ("eventually", ("bin", "gt", g.var("t"), g.num(5000))), "watches": []},
+        {"name": "m1", "cond": g.TRUE, "assigns": [{"target": "x", "mode": "single", "n": 0, "expr": bad}], "expect": None, "watches": []}]}
+
+
 CORPUS = [
+    (_errs_at_start(False), []),
+    (_errs_at_start(True), []),
+    (_errs_at_start(False), [("sig", F(1), [("scalar", "a", "s", F(2))])]),
     # `audits throughout` with a predicate over a signal that never arrives: the period is the whole play
     ({"signals": [("s", "scalar")], "actors": ["a"], "members": [
         {"name": "m0", "cond": g.TRUE, "assigns": [], "expect": ("eventually", ("bin", "gt", g.var("s", "a"), g.num(100))), "watches": []}]}, []),
@@ -192,6 +204,17 @@ def run(tier, seed):
         d = g.stream_diff(im, mo, TEND, keep=lambda it: it[0] in ("start", "stop", "rep"))
         if d or (im["abort"] == "none") != (mo["abort"] == "none"):
             kdis.append({"config": text, "events": [str(e) for e in evs], "diff": d, "impl_err": im.get("err"), "model_abort": mo["abort"]})
+            if im["abort"] != "none":
+                # an evaluation error ends the audition: the final round is still due.  An auditor the real loop started
+                # and left without its end-of-period judgement, although the final round (as the model runs it) closes it,
+                # is a period that was never closed — a failing input, not only a disagreement
+                for m in cfg["members"]:
+                    mk, mm = markers(im["stream"], m["name"]), markers(mo["stream"], m["name"])
+                    if mk and mk[-1] != "E" and "S" in mk and mm and mm[-1] == "E":
+                        ofail.append({"config": text, "events": g.events_json(evs), "auditor": m["name"], "markers": ",".join(mk),
+                                      "oracle": "FAIL the audition ended on an evaluation error (%s) and this auditor's open period never got its end-of-period judgement (the final round closes it: %s)"
+                                                % (im.get("err"), ",".join(mm)), "shape": "left-open-by-an-evaluation-error", "open_at_end": True})
+                        break
         # O: the bracket / fresh-start / closure specification on the REAL stream
         if im["abort"] == "none":
             for m in cfg["members"]:
